@@ -59,6 +59,7 @@ fn pools(ty: &str) -> Vec<(Value, String)> {
         "Uuid" => pool!(uuid::Uuid, [uuid::Uuid::nil(), uuid::Uuid::from_u128(0x1234_5678_9abc_def0_1234_5678_9abc_def0)]),
         "IpNetwork" => pool!(ipnetwork::IpNetwork, [ipnetwork::IpNetwork::from_str("10.0.0.0/8").unwrap(), ipnetwork::IpNetwork::from_str("::1/128").unwrap()]),
         "MacAddress" => pool!(mac_address::MacAddress, [mac_address::MacAddress::new([1, 2, 3, 4, 5, 6])]),
+        "Vector" => pool!(pgvector::Vector, [pgvector::Vector::from(vec![1.0f32, -2.5, 0.0]), pgvector::Vector::from(Vec::<f32>::new())]),
         "Vec<i32>" => pool!(Vec<i32>, [vec![], vec![1, -2, 3]]),
         "Vec<String>" => pool!(Vec<String>, [vec!["a".to_string(), "".to_string()]]),
         "Vec<f64>" => pool!(Vec<f64>, [vec![1.5, -0.0]]),
@@ -76,7 +77,7 @@ fn null_of(ty: &str) -> Value {
         "DateTime<Utc>" => n!(chrono::DateTime<chrono::Utc>), "DateTime<FixedOffset>" => n!(chrono::DateTime<chrono::FixedOffset>),
         "time::Date" => n!(time::Date), "time::Time" => n!(time::Time), "PrimitiveDateTime" => n!(time::PrimitiveDateTime),
         "OffsetDateTime" => n!(time::OffsetDateTime), "Decimal" => n!(rust_decimal::Decimal), "BigDecimal" => n!(bigdecimal::BigDecimal),
-        "Uuid" => n!(uuid::Uuid), "IpNetwork" => n!(ipnetwork::IpNetwork), "MacAddress" => n!(mac_address::MacAddress),
+        "Uuid" => n!(uuid::Uuid), "IpNetwork" => n!(ipnetwork::IpNetwork), "MacAddress" => n!(mac_address::MacAddress), "Vector" => n!(pgvector::Vector),
         "Vec<i32>" => n!(Vec<i32>), "Vec<String>" => n!(Vec<String>), "Vec<f64>" => n!(Vec<f64>),
         _ => panic!("unknown type {ty}"),
     }
@@ -106,7 +107,7 @@ fn extract(tgt: &str, opt: bool, v: Value) -> J {
         "DateTime<Utc>" => t!(chrono::DateTime<chrono::Utc>), "DateTime<FixedOffset>" => t!(chrono::DateTime<chrono::FixedOffset>),
         "time::Date" => t!(time::Date), "time::Time" => t!(time::Time), "PrimitiveDateTime" => t!(time::PrimitiveDateTime),
         "OffsetDateTime" => t!(time::OffsetDateTime), "Decimal" => t!(rust_decimal::Decimal), "BigDecimal" => t!(bigdecimal::BigDecimal),
-        "Uuid" => t!(uuid::Uuid), "IpNetwork" => t!(ipnetwork::IpNetwork), "MacAddress" => t!(mac_address::MacAddress),
+        "Uuid" => t!(uuid::Uuid), "IpNetwork" => t!(ipnetwork::IpNetwork), "MacAddress" => t!(mac_address::MacAddress), "Vector" => t!(pgvector::Vector),
         "Vec<i32>" => t!(Vec<i32>), "Vec<String>" => t!(Vec<String>), "Vec<f64>" => t!(Vec<f64>),
         "Cow<str>" => if opt { json!({"k": "na"}) } else { out::<std::borrow::Cow<str>>(v) },
         _ => panic!("unknown target type {tgt}"),
@@ -152,7 +153,22 @@ pub fn valcase(c: &J) -> J {
                     }
                     let _ = &vt;
                     let same = rt(&t);
-                    json!({"kind": kind, "items": items, "same": same})
+                    // a value tuple of another arity must be refused, not truncated or padded
+                    fn canon(m: usize) -> ValueTuple {
+                        let mut vs: Vec<Value> = (0..m).map(|i| Value::from(900 + i as i32)).collect();
+                        match m {
+                            1 => ValueTuple::One(vs.remove(0)),
+                            2 => { let b = vs.remove(1); ValueTuple::Two(vs.remove(0), b) }
+                            3 => { let c3 = vs.remove(2); let b = vs.remove(1); ValueTuple::Three(vs.remove(0), b, c3) }
+                            _ => ValueTuple::Many(vs),
+                        }
+                    }
+                    fn refuses<T: FromValueTuple>(_t: &T, vt: ValueTuple) -> bool {
+                        std::panic::catch_unwind(std::panic::AssertUnwindSafe(|| { let _: T = FromValueTuple::from_value_tuple(vt); })).is_err()
+                    }
+                    let longer = refuses(&t, canon(items.len() + 1));
+                    let shorter = items.len() == 1 || refuses(&t, canon(items.len() - 1));
+                    json!({"kind": kind, "items": items, "same": same, "longer_refused": longer, "shorter_refused": shorter})
                 }};
             }
             let r = match n {
@@ -254,6 +270,9 @@ fn eq_pool() -> Vec<(String, Value)> {
     add("Uuid:null", Value::Uuid(None)); add("Uuid:nil", uuid::Uuid::nil().into()); add("Uuid:x", uuid::Uuid::from_u128(7).into());
     add("IpNetwork:a", ipnetwork::IpNetwork::from_str("10.0.0.0/8").unwrap().into());
     add("MacAddress:a", mac_address::MacAddress::new([1, 2, 3, 4, 5, 6]).into());
+    add("Vector:null", Value::Vector(None)); add("Vector:a", pgvector::Vector::from(vec![1.0f32, 2.0]).into());
+    add("Vector:a2", pgvector::Vector::from(vec![1.0f32, 2.0]).into()); add("Vector:b", pgvector::Vector::from(vec![2.0f32, 1.0]).into());
+    add("Vector:empty", pgvector::Vector::from(Vec::<f32>::new()).into());
     add("Array:int_null", Value::Array(ArrayType::Int, None)); add("Array:str_null", Value::Array(ArrayType::String, None));
     add("Array:int_empty", Vec::<i32>::new().into()); add("Array:str_empty", Vec::<String>::new().into());
     add("Array:int_12", vec![1i32, 2].into()); add("Array:int_12b", vec![1i32, 2].into()); add("Array:int_21", vec![2i32, 1].into());
